@@ -227,7 +227,20 @@ func unop(i *interpreter, instr *ssa.UnOp, x value) value {
 		}
 		return v
 	case token.MUL:
-		return load(deref(instr.X.Type()), i.checkPtr(x.(*value)))
+		dt := deref(instr.X.Type())
+		v := load(dt, i.checkPtr(x.(*value)))
+		// zero-copy reinterpretations through unsafe.Pointer: *(*string)(unsafe.Pointer(&bytes)) and back
+		if b, ok := dt.Underlying().(*types.Basic); ok && b.Kind() == types.String {
+			if s, isSlice := v.([]value); isSlice {
+				return normStr(symstr(append([]value(nil), s...)))
+			}
+		} else if _, ok := dt.Underlying().(*types.Slice); ok {
+			switch s := v.(type) {
+			case string, symstr:
+				return strBytes(s)
+			}
+		}
+		return v
 	case token.NOT:
 		return i.notV(x)
 	}
